@@ -1,6 +1,10 @@
 package http2
 
-import "fmt"
+import (
+	"fmt"
+
+	"github.com/valyala/fasthttp"
+)
 
 // C02 — the client sends each request intact and gives each caller exactly
 // its own response.
@@ -109,4 +113,103 @@ func VerifH_C02_pair() {
 	vAssert(!d2, "C02.pair.resolved-once")
 	vCover("C02.pair.cut", cut == 3 && da && db)
 	vCover("C02.pair.reordered", first == 3 && da)
+}
+
+// One request with user fields: a mixed-case name, a name that ends in an
+// arbitrary token character, and every connection-specific field. On the wire
+// (reference frame parser and HPACK decoder) the block holds the four
+// pseudo-headers first, then exactly the user's fields minus the
+// connection-specific ones, names lower-cased and otherwise untouched, values
+// untouched, and the body bytes. The response comes back as a padded HEADERS
+// frame with priority fields and padded DATA frames: the caller gets the
+// status, the field and the body without the padding.
+//
+//verif:harness prop=C02 unwind=300 timeout=600
+func VerifH_C02_wire() {
+	cl := vStartClient()
+	c := vU8()
+	vAssume(refIsTchar(c))
+	req, res := &fasthttp.Request{}, &fasthttp.Response{}
+	req.Header.SetMethod("PUT")
+	req.URI().SetHost("h")
+	req.URI().SetPath("/w")
+	req.URI().SetScheme("https")
+	req.Header.Set("X-Mixed", "Val")
+	req.Header.Set(string([]byte{'y', '_', c}), "v")
+	req.Header.Set("Connection", "keep-alive")
+	req.Header.Set("Keep-Alive", "timeout=5")
+	req.Header.Set("Proxy-Connection", "keep-alive")
+	req.Header.Set("Upgrade", "h2c")
+	req.SetBody([]byte("data"))
+	ctx := &Ctx{Request: req, Response: res, Err: make(chan error, 1)}
+	cl.c.Write(ctx)
+	vSettle()
+	k := &vCall{ctx: ctx, req: req, res: res}
+
+	t := &refTable{max: 4096, limit: 4096}
+	regular, pseudo, mixed, odd, forbidden, late := 0, 0, false, false, false, false
+	body := ""
+	for _, f := range cl.sent() {
+		vAssert(f.stream == 1, "C02.wire.stream-id")
+		if f.typ == 0x0 {
+			body += string(f.frag)
+			continue
+		}
+		if f.typ != 0x1 {
+			continue
+		}
+		for pos := 0; pos < len(f.frag); {
+			fld, upd, used, st := refHpackRep(t, pos == 0, f.frag[pos:])
+			vAssert(st == refOK, "C02.wire.valid-header-block")
+			if st != refOK {
+				return
+			}
+			pos += used
+			if upd {
+				continue
+			}
+			if fld.sidx != 0 {
+				n := refStatic[fld.sidx-1][0]
+				if n[0] == ':' {
+					pseudo++
+					late = late || regular > 0
+				} else {
+					regular++
+					forbidden = forbidden || n == "connection" || n == "keep-alive" || n == "proxy-connection" || n == "upgrade" || n == "transfer-encoding"
+				}
+				continue
+			}
+			regular++
+			name := fld.name
+			switch {
+			case len(name) == 3 && name[0] == 'y':
+				odd = vAnd(name[1] == '_', vAnd(name[2] == refLowerByte(c), string(fld.value) == "v"))
+			case string(name) == "x-mixed":
+				mixed = string(fld.value) == "Val"
+			case string(name) == "connection" || string(name) == "keep-alive" || string(name) == "proxy-connection" || string(name) == "upgrade":
+				forbidden = true
+			}
+		}
+	}
+	vAssert(pseudo == 4 && !late, "C02.wire.pseudo-headers-first")
+	vAssert(mixed, "C02.wire.name-lower-cased-value-kept")
+	vAssert(odd, "C02.wire.name-otherwise-untouched")
+	vAssert(!forbidden, "C02.wire.no-connection-specific-field")
+	vAssert(body == "data", "C02.wire.body")
+
+	blk := vRespBlock(false, 'r')
+	hp := append([]byte{2, 0x80, 0, 0, 3, 200}, blk...) // pad length, exclusive dependency on 3, weight
+	hp = append(hp, 0, 0)
+	cl.feed(vFrame(0x1, 0x4|0x8|0x20, 1, hp))
+	cl.feed(vFrame(0x0, 0x8, 1, []byte{1, 'o', 0}))
+	cl.feed(vFrame(0x0, 0x8, 1, []byte{0}))
+	cl.feed(vFrame(0x0, 0x9, 1, []byte{2, 'k', 0, 0}))
+	done, err := k.outcome()
+	vAssert(done && err == nil, "C02.wire.response-delivered")
+	if done && err == nil {
+		vAssert(res.StatusCode() == 200, "C02.wire.status")
+		vAssert(string(res.Header.Peek("x-t")) == "r", "C02.wire.response-field")
+		vAssert(string(res.Body()) == "ok", "C02.wire.body-without-padding")
+	}
+	vCover("C02.wire.done", done)
 }
